@@ -300,6 +300,20 @@ def constant_accesses(fn):
             if not mk:
                 continue
             kind = mk.group(1)
+            is_str = (t.get("selfty") == "str") or ("<str as " in cn) or ("for str>" in (callee(t) or ""))
+            if is_str:
+                # a text slice by a byte offset that is not a constant (`name[..family.len()]`): the offset may fall inside a multi-byte
+                # character of client-supplied text -> panic.  Accepted only behind is_char_boundary on the true edge.
+                fld = "start" if kind == "RangeFrom" else "end"
+                if _range_const(fn, t["args"][1], fld) is None:
+                    guarded = False
+                    for g in lib2.guards(fn, b):
+                        si_ = g["si"]
+                        if si_ and si_["src"] is not None and si_["src"].kind == "call" and is_callee(si_["src"].term, r"<impl str>::is_char_boundary$") and lib2.guard_is_true(g):
+                            guarded = True
+                    if not guarded:
+                        out.append(("str[..n]", b, t["ln"], r, 1 << 40))
+                    continue
             if kind == "RangeFrom":
                 k = _range_const(fn, t["args"][1], "start")
                 if k is not None and k > 0:
